@@ -158,7 +158,7 @@ def summarize_trace(trace):
         if st.get('stepType') != 'assignment':
             continue
         lhs = st.get('lhs', '')
-        if not lhs or lhs.startswith('__') or 'dfcc' in lhs or 'tmp_' in lhs or lhs.startswith('return_value'):
+        if not lhs.startswith('W_'):
             continue
         v = st.get('value', {})
         val = v.get('data', v.get('name'))
